@@ -174,7 +174,7 @@ Proof.
 Qed.
 Print Assumptions C01_zone_command_compiled_runs_as_its_source_says.
 
-(* `set L row a b column c d` (both clauses, in either order; L a string, a constant or a variable; bounds ordinary values or
+(* `set L row a b column c d` (one clause or both, in either order; L a string, a constant or a variable; bounds ordinary values or
    call-free expressions, `b` / `d` may be left out): whenever the reference semantics runs the statement -- a fresh matrix of
    the light's size, the rectangle staged with the colour registers, the whole matrix sent once (cells not staged carry the
    default colour) -- the compiled code (WAIT; name; MATRIX; the matrix operand; the two ranges in the order written into the
@@ -249,6 +249,7 @@ Example C01_program_nonvacuous :
             SRepeat (LCount (RCall "sq" [RLit (LInt 2)])) (SBlock [SPrint (Some (RLit (LInt 7)))]);
             SRepeat (LCount (RExpr (EBin BSub (ECall "round" [RVar "total"]) (ELit (LInt 3))))) (SBlock [SPrintln (Some (RLit (LInt 8)))]);
             SReg R_KELVIN (RReg R_KELVIN);
+            SSet (OpList [MatrixInline (NStr "candle") (Some (RLit (LInt 2), None)) None true; MatrixInline (NStr "candle") None (Some (RLit (LInt 0), Some (RLit (LInt 1)))) false]);
             SSet (OpList [MatrixInline (NStr "candle") (Some (RLit (LInt 1), Some (RVar "w"))) (Some (RLit (LInt 0), None)) true;
                           MatrixInline (NVar "who") (Some (RLit (LInt 0), None)) (Some (RExpr (EBin BSub (EVar "total") (ELit (LInt 4))), Some (RLit (LInt 1)))) false]);
             SAssign "r" (RCall "round" [RVar "total"]); SPrintln (Some (RCall "floor" [RExpr (EBin BDiv (EVar "total") (ELit (LInt 2)))]));
